@@ -54,6 +54,8 @@ SPECIAL = [
     # unbonded hydrogens in mixtures, main-group hydrides
     '[H+].[Cl-]', '[Na+].[H-]', 'C[NH3+].[H-]', '[H+].[H+].[O-]S([O-])(=O)=O', '[SiH4]', '[GeH4]',
     # one of two constitutionally equivalent donor atoms coordinated: only the coordinate bond tells the twins apart
+    # five-membered rings over an aromatic N bridgehead: aromatised by the rule-based step of thiele() only
+    'N1C=CN2C=CC=C12', 'S1C=CN2C=CC=C12', 'O1C=CN2C=CC=C12', 'C1=CN2C=CSC2=N1', 'CC1=CN2C=COC2=N1', 'c1cn2ccsc2n1', 'Cc1cn2c(C)csc2n1',
     'NCCN~[Cu]', 'c1ccccc1~[Cr]', 'OC(=O)CC(=O)O~[Zn]', 'OCCO~[Mg]', 'N#CCC#N~[Pd]', 'C1COCCO1~[Li]', 'CSCCSC~[Hg]', 'NCCN(~[Ni])CCN',
 ]
 # hydrogen-free main-group atoms, alone or held only by coordinate bonds: the reader keeps the written count although no valence state
